@@ -89,12 +89,17 @@ type validCtx struct {
 
 // sourcesOf collects the judged variables of one function body with the fact that holds after each source.
 func (vc *validCtx) sourcesOf(fi *load.FuncInfo) (map[types.Object][]nilSrc, map[types.Object]bool) {
+	return vc.sourcesIn(fi, fi.Decl.Body)
+}
+
+// sourcesIn: the same for one body of fi (the function's own, or that of a function literal inside it).
+func (vc *validCtx) sourcesIn(fi *load.FuncInfo, body *ast.BlockStmt) (map[types.Object][]nilSrc, map[types.Object]bool) {
 	info := fi.Pkg.TypesInfo
 	srcs := map[types.Object][]nilSrc{}
 	other := map[types.Object]bool{}
 	inLit := map[types.Object]bool{}
-	ast.Inspect(fi.Decl.Body, func(n ast.Node) bool {
-		if l, ok := n.(*ast.FuncLit); ok {
+	ast.Inspect(body, func(n ast.Node) bool {
+		if l, ok := n.(*ast.FuncLit); ok && l.Body != body {
 			ast.Inspect(l.Body, func(m ast.Node) bool {
 				if id, ok := m.(*ast.Ident); ok {
 					if o := info.ObjectOf(id); o != nil {
@@ -118,7 +123,7 @@ func (vc *validCtx) sourcesOf(fi *load.FuncInfo) (map[types.Object][]nilSrc, map
 		}
 		return v
 	}
-	ownNodes(fi.Decl.Body, func(n ast.Node) {
+	ownNodes(body, func(n ast.Node) {
 		switch x := n.(type) {
 		case *ast.AssignStmt:
 			handled := map[int]bool{}
@@ -324,6 +329,37 @@ func (vc *validCtx) withFacts(fi *load.FuncInfo, srcs map[types.Object][]nilSrc)
 	return fn, an
 }
 
+// withFactsLit is withFacts for a function literal of fi.
+func (vc *validCtx) withFactsLit(fi *load.FuncInfo, lit *ast.FuncLit, name string, srcs map[types.Object][]nilSrc) (*gf.Fn, *gf.Analysis) {
+	c := vc.c
+	fn := c.E.FnOfLit(fi.Pkg.TypesInfo, lit, name)
+	saved := fn.PostFacts
+	pf := map[ast.Node]*gf.Formula{}
+	for k, v := range saved {
+		pf[k] = v
+	}
+	n := 0
+	for _, ss := range srcs {
+		for _, s := range ss {
+			if s.fact != nil {
+				if old, ok := pf[s.node]; ok {
+					pf[s.node] = gf.And(old, s.fact)
+				} else {
+					pf[s.node] = s.fact
+				}
+				n++
+			}
+		}
+	}
+	if n == 0 {
+		return c.LitAnalysis(fi.Pkg.TypesInfo, lit, name)
+	}
+	fn.PostFacts = pf
+	an := fn.Analyze(nil)
+	fn.PostFacts = saved
+	return fn, an
+}
+
 // nilReturnsCarryError: at every return of f whose first result is the nil literal, the facts give a non-nil error
 // (or the error is built on the spot). One obligation per such return.
 func (vc *validCtx) nilReturnsCarryError(f *types.Func) bool {
@@ -480,6 +516,10 @@ func (vc *validCtx) sinksIn(fn *gf.Fn, info *types.Info, body *ast.BlockStmt, de
 					out = append(out, nilSink{x.X, x, "deref", "." + x.Sel.Name, nil, 0})
 				} else if _, isIface := info.TypeOf(x.X).Underlying().(*types.Interface); isIface && sel.Kind() == types.MethodVal {
 					out = append(out, nilSink{x.X, x, "method", "." + x.Sel.Name + "()", nil, 0})
+				} else if _, isPtr := info.TypeOf(x.X).Underlying().(*types.Pointer); isPtr && sel.Kind() == types.MethodVal {
+					// a method called on the pointer itself (DeepCopy of a nil pointer is nil, and the nil travels on): a use
+					// of a value that is only valid without an error
+					out = append(out, nilSink{x.X, x, "recv", "." + x.Sel.Name + "()", nil, 0})
 				}
 			}
 		case *ast.KeyValueExpr:
@@ -518,7 +558,9 @@ func (vc *validCtx) sinksIn(fn *gf.Fn, info *types.Info, body *ast.BlockStmt, de
 					continue
 				}
 				if _, isID := ast.Unparen(a).(*ast.Ident); !isID {
-					continue
+					if _, isIx := ast.Unparen(a).(*ast.IndexExpr); !isIx {
+						continue
+					}
 				}
 				name := types.ExprString(x.Fun)
 				if f != nil && f.Pkg() != nil && inRepoPkg(f.Pkg().Path()) {
@@ -596,7 +638,7 @@ func (vc *validCtx) needsNonNil0(f *types.Func, i int, depth int, strict bool) b
 				if !hit {
 					continue
 				}
-				if s.kind == "store" && !strict {
+				if (s.kind == "store" || s.kind == "recv") && !strict {
 					continue // keeping a pointer that may legitimately be nil is not a read
 				}
 				if s.kind == "arg?" && !vc.needsNonNil(s.callee, s.idx, depth+1, strict) {
@@ -614,17 +656,8 @@ func (vc *validCtx) needsNonNil0(f *types.Func, i int, depth int, strict bool) b
 func (c *Ctx) validResults(scope []*load.FuncInfo) {
 	vc := &validCtx{c: c, summary: map[*types.Func]int{}, needs: map[string]int{}, returnsNil: map[*types.Func]int{}, weak: map[*types.Func]bool{}}
 	nSrc, nSink, nVars := 0, 0, 0
-	for _, fi := range scope {
-		srcs, _ := vc.sourcesOf(fi)
-		if len(srcs) == 0 {
-			continue
-		}
+	judge := func(fi *load.FuncInfo, tname string, fn *gf.Fn, an *gf.Analysis, srcs map[types.Object][]nilSrc) {
 		info := fi.Pkg.TypesInfo
-		fn, an := vc.withFacts(fi, srcs)
-		tname := c.tableName(fi)
-		if i := strings.LastIndex(tname, "."); i >= 0 {
-			tname = tname[i+1:]
-		}
 		if os.Getenv("ASV_DEBUG_C155") != "" {
 			for v, ss := range srcs {
 				for _, s := range ss {
@@ -677,7 +710,7 @@ func (c *Ctx) validResults(scope []*load.FuncInfo) {
 					// a value that is only valid without an error must not be kept or handed on either;
 					// a pointer that is nil by contract may be
 					strict := srcs[src][0].kind == "S1"
-					if s.kind == "store" && !strict {
+					if (s.kind == "store" || s.kind == "recv") && !strict {
 						continue
 					}
 					if s.kind == "arg?" {
@@ -703,6 +736,77 @@ func (c *Ctx) validResults(scope []*load.FuncInfo) {
 				}
 			}
 		}
+	}
+	for _, fi := range scope {
+		tname := c.tableName(fi)
+		if i := strings.LastIndex(tname, "."); i >= 0 {
+			tname = tname[i+1:]
+		}
+		if srcs, _ := vc.sourcesOf(fi); len(srcs) > 0 {
+			fn, an := vc.withFacts(fi, srcs)
+			judge(fi, tname, fn, an, srcs)
+		}
+		// and its function literals (retry closures), each a body of its own
+		k := 0
+		ast.Inspect(fi.Decl.Body, func(n ast.Node) bool {
+			lit, ok := n.(*ast.FuncLit)
+			if !ok {
+				return true
+			}
+			k++
+			if srcs, _ := vc.sourcesIn(fi, lit.Body); len(srcs) > 0 {
+				lname := fmt.Sprintf("%s$lit%d", tname, k)
+				fn, an := vc.withFactsLit(fi, lit, lname, srcs)
+				judge(fi, lname, fn, an, srcs)
+			}
+			return true
+		})
+	}
+	// the cells of the wanted slice: made with make([]*Pod, bound), so every cell starts nil and the cells at delete
+	// slots stay nil. A cell is dereferenced, or handed to a callee that reads it, only where the facts exclude nil.
+	if r := c.ReconcileRoles(); r != nil && r.W != nil {
+		info := r.FI.Pkg.TypesInfo
+		fn, an := r.Fn, r.An
+		tname := vc.short(r.FI)
+		occ := map[string]int{}
+		nCell := 0
+		for _, s := range vc.sinksIn(fn, info, r.FI.Decl.Body, 0) {
+			ix, ok := ast.Unparen(s.base).(*ast.IndexExpr)
+			if !ok {
+				continue
+			}
+			if id := rootIdent(ix.X); id == nil || info.ObjectOf(id) != r.W {
+				continue
+			}
+			if s.kind == "store" || s.kind == "recv" {
+				continue
+			}
+			if s.kind == "arg?" {
+				if !vc.needsNonNil(s.callee, s.idx, 0, false) {
+					continue
+				}
+				s.what += ", which reads it without a test"
+			}
+			bt := fn.Term(ix)
+			for _, st := range an.StatesAtExpr(s.at) {
+				if !st.Reachable() {
+					continue
+				}
+				nCell++
+				k := fmt.Sprintf("%s: %s %s", tname, types.ExprString(ix), s.what)
+				occ[k]++
+				name := k
+				if occ[k] > 1 {
+					name = fmt.Sprintf("%s #%d", k, occ[k])
+				}
+				if g, wit := st.Implies(gf.FNotNil(bt)); g {
+					c.OK("C15.5-wanted-cell-read-only-when-filled", name, s.at.Pos(), "facts exclude nil here")
+				} else {
+					c.Bad("C15.5-wanted-cell-read-only-when-filled", name, s.at.Pos(), "a cell of the wanted slice may be nil here (a delete slot, or not yet filled) and is read: the reconcile panics; facts: "+clip(wit, 400))
+				}
+			}
+		}
+		c.Floor("C15.5-wanted-cell-reads", nCell, 10)
 	}
 	c.Notes = append(c.Notes, fmt.Sprintf("C15.5: %d variables with %d nil-able sources, %d reads judged", nVars, nSrc, nSink))
 	c.Floor("C15.5-nilable-sources", nSrc, 10)
